@@ -158,15 +158,23 @@ CLAIMED["C05"] = dict(
          "source (clang AST -> Gen/MhUpdate.lean) on every run and proved to advance total_length, call their own family's "
          "block function on exactly the completed carried block and the whole blocks of the input, and stash exactly the "
          "tail, for every context state and input (canon_mh_update, GenProps/MhUpdate.lean); the identification of that "
-         "specification (mhSpec) with the hand-written MhStream.update is by correspondence, not by proof.",
+         "specification (mhSpec) with the hand-written MhStream.update is by correspondence, not by proof. The 10 tail "
+         "functions (canon_tail, tailBlocks_is_standard: the blocks hashed are the partial block plus the standard padding) "
+         "and the 10 finalize functions (canon_fin: own family's tail with the 32-bit total, exactly W words copied out) "
+         "are translated and proved the same way.",
     note=_MH_NOTE, technique="Lean 4 proof over hand-written model + Lean 4 proof over the translated update template + differential correspondence per family",
     engine="MultiHash", ref="5 C05, 10.9")
 CLAIMED["C10"] = dict(
     text="Proof (Lean 4): for every seed, every partition of a stream < 2^32 bytes: the stitched finalize returns "
          "(mh_sha1 of the stream, MurmurHash3_x64_128 of the stream with both state words = seed); model follows "
          "mh_sha1_murmur3_x64_128_{update,finalize}_base.c and murmur3_x64_128_internal.c incl. the order of operations "
-         "in finalize. Tie: correspondence incl. the running murmur state after every update, all families + public API.",
-    note=_MH_NOTE, technique="Lean 4 proof over hand-written model + differential correspondence per family",
+         "in finalize. Tie: correspondence incl. the running murmur state after every update, all families + public API; "
+         "plus T-route: the 5 stitched update instances and the 5 stitched finalize instances are translated from the "
+         "current source on every run (gen_mhupdate.py, gen_mhfin.py) and have to equal the programs whose meaning is "
+         "proved (canon_mh_update / mhupdate_absorbs; canon_fin, mur_reads_buffered: murmur3 is fed exactly the buffered "
+         "bytes before the mh tail overwrites them, with the 32-bit total length).",
+    note=_MH_NOTE, technique="Lean 4 proof over hand-written model + differential correspondence per family; Lean 4 proof over "
+                              "source-translated update/tail/finalize programs (per-run decide obligations)",
     engine="MultiHash", ref="5 C10")
 
 CLAIMED["C08"] = dict(
